@@ -21,6 +21,14 @@ Example src_unhalt_condition_is_model :
 Proof. repeat split; reflexivity. Qed.
 
 (* both Reorg methods pass the number of deleted `block` rows (num >= firstReorgedBlock) to it, unconditionally *)
+(* one processor per syncer: the halted flag the facade's guards read is the flag ProcessBlock / Reorg set and clear, because each
+   constructor creates ONE processor and hands the very same object to the driver and to the facade (the model has one state per
+   syncer; two processor objects over one database would make the facade read a flag nobody ever sets) *)
+Example src_one_processor_per_syncer :
+  src_c14_processor_wiring = [("l1infotreesync/l1infotreesync.go New", 1%nat, true);
+                              ("bridgesync/bridgesync.go newBridgeSync", 1%nat, true)]%string.
+Proof. reflexivity. Qed.
+
 Example src_reorg_feeds_deleted_block_rows :
   src_bridge_reorg_unhalt_call = "sync.UnhaltIfAffectedRows(&p.halted, &p.haltedReason, &p.mu, rowsAffected)"%string /\
   src_bridge_reorg_unhalt_call_unconditional = true /\
